@@ -1,205 +1,171 @@
 (* Proofs/CodecErrDec.v — C08, decode side: every decoder result is a value, DataError or
-   BufferEmptyError; the unread rest is a suffix; types that make progress; termination of
-   Array(None, T) for every fuel above the buffer length; the generic hang lemma. *)
+   BufferEmptyError; the unread rest is a suffix; types that make progress; termination of every
+   decode (Array._decode_all stops when an element consumed nothing; Array(L, T) runs `count`
+   element decodes, which end with the buffer when T makes progress). *)
 From PV Require Import Base.Bytes Base.BytesLemmas Base.Res.
-From PV Require Import Gen.Types Gen.CodecFacts Model.Codec Model.CodecDom.
+From PV Require Import Gen.Types Gen.CodecFacts Model.Codec.
 From PV Require Import Proofs.CodecErrDefs Proofs.CodecErrBase.
 From Coq Require Import ZifyBool.
 Open Scope Z_scope.
 Ltac Zify.zify_post_hook ::= Z.to_euclidean_division_equations.
 
 (* ------------------------------------------------------------------ result shapes *)
-(* a library result whose unread rest is no longer than the buffer; a success consumed a byte *)
-Definition shape_le (bs : bytes) (r : dres) : Prop :=
-  match r with
-  | DOk _ x | DEmpty x => (length x <= length bs)%nat
-  | DErr e => e = DataError
-  | DOutOfFuel => False
-  end.
-Definition shape_lt (bs : bytes) (r : dres) : Prop :=
-  match r with
-  | DOk _ x => (length x < length bs)%nat
-  | DEmpty x => (length x <= length bs)%nat
-  | DErr e => e = DataError
-  | DOutOfFuel => False
-  end.
-
-Lemma shape_lt_le bs r : shape_lt bs r -> shape_le bs r.
-Proof. destruct r; cbn; auto; lia. Qed.
-Lemma shape_le_rest bs r : shape_le bs r -> dres_rest_le bs r.
-Proof. destruct r; cbn; auto. Qed.
-Lemma shape_le_wrap bs r : dres_rest_le bs r -> r <> DOutOfFuel -> shape_le bs (dwrap r).
-Proof. destruct r; cbn; auto; try (intros _ H; now apply H). Qed.
-
-Lemma int_decode_lt sg w bs : shape_lt bs (int_decode sg w bs).
-Proof.
-  pose proof (int_decode_shape sg w bs) as H. destruct (int_decode sg w bs); cbn; auto.
-  - lia.
-  - destruct H as [-> _]. lia.
-Qed.
-
-(* the continuation of a read that returned data: it runs on a strictly shorter rest *)
-Lemma stream_read_lt n bs k :
-  (forall d r, d <> [] -> bs = d ++ r -> shape_le r (k d r)) ->
-  shape_lt bs (stream_read n bs k).
-Proof.
-  intros Hk. destruct (stream_read_cases n bs k) as (d & r & Ht & [[-> ->]|[Hd ->]]).
-  - apply stream_take_nil in Ht as [-> _]. cbn. lia.
-  - pose proof (stream_take_split _ _ _ _ Ht) as ->. specialize (Hk d r Hd eq_refl).
-    assert (Hl : (length r < length (d ++ r))%nat) by (rewrite app_length; destruct d; [contradiction|cbn; lia]).
-    destruct (k d r); cbn in *; auto; lia.
-Qed.
-
-Lemma shape_lt_wrap bs r : shape_lt bs r -> shape_lt bs (dwrap r).
-Proof. destruct r; cbn; auto. Qed.
-
-(* sequencing: a first step that made progress, then anything that does not lengthen the rest *)
-Lemma dbind_lt bs r f :
-  shape_lt bs r -> (forall v r1, r = DOk v r1 -> shape_le r1 (f v r1)) -> shape_lt bs (dbind r f).
-Proof.
-  intros Hr Hf. destruct r as [v r1| | |]; cbn in *; auto.
-  specialize (Hf v r1 eq_refl). destruct (f v r1); cbn in *; auto; lia.
-Qed.
-Lemma dbind_le bs r f :
-  shape_le bs r -> (forall v r1, r = DOk v r1 -> shape_le r1 (f v r1)) -> shape_le bs (dbind r f).
-Proof.
-  intros Hr Hf. destruct r as [v r1| | |]; cbn in *; auto.
-  specialize (Hf v r1 eq_refl). destruct (f v r1); cbn in *; auto; lia.
-Qed.
-(* weakening of the buffer *)
-Lemma shape_le_mono bs bs' r : shape_le bs r -> (length bs <= length bs')%nat -> shape_le bs' r.
-Proof. destruct r; cbn; auto; lia. Qed.
-
-Lemma text_result_le enc data r2 :
-  shape_le r2 (match text_decode enc data with Ok s => DOk (VStr s) r2 | Err e => DErr e end) \/
-  exists e, (match text_decode enc data with Ok s => DOk (VStr s) r2 | Err e => DErr e end) = DErr e.
-Proof. destruct (text_decode enc data); [left; cbn; lia|right; eauto]. Qed.
-
-(* ---- leaves: every decoder whose first action is a _stream_read / an integer decode *)
-Lemma bool_decode_lt bs : shape_lt bs (bool_decode bs).
-Proof. pose proof (bool_decode_shape bs) as H. destruct (bool_decode bs); cbn; auto; [lia|]. destruct H as [-> _]. lia. Qed.
-Lemma real_decode_lt dbl bs : shape_lt bs (real_decode dbl bs).
-Proof.
-  pose proof (real_decode_shape dbl bs) as H. destruct (real_decode dbl bs); cbn; auto.
-  - destruct dbl; lia.
-  - destruct H as [-> _]. lia.
-Qed.
-
-(* DataType.decode over a body: foreign exceptions become DataError; lengths are kept *)
-Lemma wrap_body_lt bs r :
-  match r with DOk _ x => (length x < length bs)%nat | DEmpty x => (length x <= length bs)%nat | DErr _ => True | DOutOfFuel => False end ->
-  shape_lt bs (dwrap r).
-Proof. destruct r; cbn; auto. Qed.
-Definition pre_lt (bs : bytes) (r : dres) : Prop :=
-  match r with DOk _ x => (length x < length bs)%nat | DEmpty x => (length x <= length bs)%nat | DErr _ => True | DOutOfFuel => False end.
+(* [pre_*]: a decoder body (before DataType.decode's wrapper): the unread rest is no longer than
+   the buffer ([pre_lt]: a success consumed a byte), no fuel is used *)
 Definition pre_le (bs : bytes) (r : dres) : Prop :=
   match r with DOk _ x | DEmpty x => (length x <= length bs)%nat | DErr _ => True | DOutOfFuel => False end.
+Definition pre_lt (bs : bytes) (r : dres) : Prop :=
+  match r with DOk _ x => (length x < length bs)%nat | DEmpty x => (length x <= length bs)%nat | DErr _ => True | DOutOfFuel => False end.
+
 Lemma pre_lt_le bs r : pre_lt bs r -> pre_le bs r.
 Proof. destruct r; cbn; auto; lia. Qed.
-Lemma shape_lt_pre bs r : shape_lt bs r -> pre_lt bs r.
+Lemma pre_le_wrap bs r : pre_le bs r -> pre_le bs (dwrap r).
 Proof. destruct r; cbn; auto. Qed.
-Lemma shape_le_pre bs r : shape_le bs r -> pre_le bs r.
-Proof. destruct r; cbn; auto. Qed.
-Lemma pre_lt_wrap bs r : pre_lt bs r -> shape_lt bs (dwrap r).
-Proof. destruct r; cbn; auto. Qed.
-Lemma pre_le_wrap bs r : pre_le bs r -> shape_le bs (dwrap r).
+Lemma pre_lt_wrap bs r : pre_lt bs r -> pre_lt bs (dwrap r).
 Proof. destruct r; cbn; auto. Qed.
 Lemma pre_le_mono bs bs' r : pre_le bs r -> (length bs <= length bs')%nat -> pre_le bs' r.
 Proof. destruct r; cbn; auto; lia. Qed.
-Lemma dbind_pre_lt bs r f :
-  pre_lt bs r -> (forall v r1, r = DOk v r1 -> pre_le r1 (f v r1)) -> pre_lt bs (dbind r f).
-Proof.
-  intros Hr Hf. destruct r as [v r1| | |]; cbn in *; auto.
-  specialize (Hf v r1 eq_refl). destruct (f v r1); cbn in *; auto; lia.
-Qed.
+Lemma pre_le_rest bs r : pre_le bs r -> dres_rest_le bs r.
+Proof. destruct r; cbn; auto. Qed.
+
 Lemma dbind_pre_le bs r f :
   pre_le bs r -> (forall v r1, r = DOk v r1 -> pre_le r1 (f v r1)) -> pre_le bs (dbind r f).
 Proof.
   intros Hr Hf. destruct r as [v r1| | |]; cbn in *; auto.
   specialize (Hf v r1 eq_refl). destruct (f v r1); cbn in *; auto; lia.
 Qed.
-Lemma stream_read_pre_lt n bs k :
-  (forall d r, d <> [] -> bs = d ++ r -> pre_le r (k d r)) -> pre_lt bs (stream_read n bs k).
+Lemma dbind_pre_lt bs r f :
+  pre_lt bs r -> (forall v r1, r = DOk v r1 -> pre_le r1 (f v r1)) -> pre_lt bs (dbind r f).
 Proof.
-  intros Hk. destruct (stream_read_cases n bs k) as (d & r & Ht & [[-> ->]|[Hd ->]]).
-  - apply stream_take_nil in Ht as [-> _]. cbn. lia.
-  - pose proof (stream_take_split _ _ _ _ Ht) as ->. specialize (Hk d r Hd eq_refl).
-    assert (Hl : (length r < length (d ++ r))%nat) by (rewrite app_length; destruct d; [contradiction|cbn; lia]).
+  intros Hr Hf. destruct r as [v r1| | |]; cbn in *; auto.
+  specialize (Hf v r1 eq_refl). destruct (f v r1); cbn in *; auto; lia.
+Qed.
+Lemma dbind_pre_le_lt bs r f :
+  pre_le bs r -> (forall v r1, r = DOk v r1 -> pre_lt r1 (f v r1)) -> pre_lt bs (dbind r f).
+Proof.
+  intros Hr Hf. destruct r as [v r1| | |]; cbn in *; auto.
+  specialize (Hf v r1 eq_refl). destruct (f v r1); cbn in *; auto; lia.
+Qed.
+
+Lemma stream_read_pre_le n bs k :
+  (forall d r, bs = d ++ r -> pre_le r (k d r)) -> pre_le bs (stream_read n bs k).
+Proof.
+  intros Hk. destruct (stream_read_cases n bs k)
+    as (d & r & Ht & [(-> & Hn & ->)|[(-> & Hn & ->)|[(Hd & Hl & ->)|(Hd & Hl & ->)]]]); try exact I.
+  - apply stream_take_len in Ht. cbn in *. lia.
+  - pose proof (stream_take_split _ _ _ _ Ht) as Hs. eapply pre_le_mono; [apply (Hk [] r Hs)|]. subst bs. cbn. lia.
+  - pose proof (stream_take_split _ _ _ _ Ht) as Hs. eapply pre_le_mono; [apply (Hk d r Hs)|]. subst bs. rewrite app_length. lia.
+Qed.
+Lemma stream_read_pre_lt n bs k :
+  n <> 0 -> (forall d r, bs = d ++ r -> pre_le r (k d r)) -> pre_lt bs (stream_read n bs k).
+Proof.
+  intros Hn0 Hk. destruct (stream_read_cases n bs k)
+    as (d & r & Ht & [(-> & Hn & ->)|[(-> & Hn & ->)|[(Hd & Hl & ->)|(Hd & Hl & ->)]]]); try exact I.
+  - apply stream_take_len in Ht. cbn in *. lia.
+  - contradiction.
+  - pose proof (stream_take_split _ _ _ _ Ht) as Hs. specialize (Hk d r Hs).
+    assert (Hlt : (length r < length bs)%nat) by (subst bs; rewrite app_length; destruct d; [contradiction|cbn; lia]).
     destruct (k d r); cbn in *; auto; lia.
 Qed.
 Lemma text_result_pre enc data r2 :
   pre_le r2 (match text_decode enc data with Ok s => DOk (VStr s) r2 | Err e => DErr e end).
 Proof. destruct (text_decode enc data); cbn; auto. Qed.
 
-Lemma str_decode_lt lsg lw enc bs : shape_lt bs (str_decode lsg lw enc bs).
+(* ---- leaves *)
+Lemma int_decode_le sg w bs : pre_le bs (int_decode sg w bs).
+Proof. pose proof (int_decode_shape sg w bs) as H. destruct (int_decode sg w bs); cbn; auto; [lia|]. destruct H as [-> _]. cbn. lia. Qed.
+Lemma int_decode_lt sg w bs : (0 < w)%nat -> pre_lt bs (int_decode sg w bs).
+Proof. intros Hw. pose proof (int_decode_shape sg w bs) as H. destruct (int_decode sg w bs); cbn; auto; [lia|]. destruct H as [-> _]. cbn. lia. Qed.
+Lemma bool_decode_lt bs : pre_lt bs (bool_decode bs).
+Proof. pose proof (bool_decode_shape bs) as H. destruct (bool_decode bs); cbn; auto; [lia|]. destruct H as [-> _]. cbn. lia. Qed.
+Lemma real_decode_lt dbl bs : pre_lt bs (real_decode dbl bs).
 Proof.
-  unfold str_decode. apply pre_lt_wrap. apply dbind_pre_lt; [apply shape_lt_pre, int_decode_lt|].
-  intros n r1 _. destruct (as_int n =? 0); [cbn; lia|].
-  apply pre_lt_le, stream_read_pre_lt. intros d r _ _. apply text_result_pre.
+  pose proof (real_decode_shape dbl bs) as H. destruct (real_decode dbl bs); cbn; auto.
+  - destruct dbl; lia.
+  - destruct H as [-> _]. cbn. lia.
 Qed.
 
-Lemma stringn_decode_lt bs : shape_lt bs (stringn_decode bs).
+Lemma str_decode_le lsg lw enc bs : pre_le bs (str_decode lsg lw enc bs).
+Proof.
+  unfold str_decode. apply pre_le_wrap. apply dbind_pre_le; [apply int_decode_le|].
+  intros n r1 _. destruct (as_int n =? 0); [cbn; lia|].
+  apply stream_read_pre_le. intros d r _. apply text_result_pre.
+Qed.
+Lemma str_decode_lt lsg lw enc bs : (0 < lw)%nat -> pre_lt bs (str_decode lsg lw enc bs).
+Proof.
+  intros Hw. unfold str_decode. apply pre_lt_wrap. apply dbind_pre_lt; [now apply int_decode_lt|].
+  intros n r1 _. destruct (as_int n =? 0); [cbn; lia|].
+  apply stream_read_pre_le. intros d r _. apply text_result_pre.
+Qed.
+
+Lemma stringn_decode_lt bs : pre_lt bs (stringn_decode bs).
 Proof.
   unfold stringn_decode. rewrite named_UINT_decode. apply pre_lt_wrap.
-  apply dbind_pre_lt; [apply shape_lt_pre, int_decode_lt|]. intros cs r1 _.
-  apply dbind_pre_le; [apply pre_lt_le, shape_lt_pre, int_decode_lt|]. intros cnt r2 _.
+  apply dbind_pre_lt; [apply int_decode_lt; lia|]. intros cs r1 _.
+  apply dbind_pre_le; [apply int_decode_le|]. intros cnt r2 _.
   destruct (stringn_enc (as_int cs)); [|cbn; auto].
-  apply pre_lt_le, stream_read_pre_lt. intros d r _ _. apply text_result_pre.
+  destruct (as_int cnt =? 0); [cbn; lia|].
+  apply stream_read_pre_le. intros d r _. apply text_result_pre.
 Qed.
 
-Lemma datetime_decode_lt bs : shape_lt bs (datetime_decode bs).
+Lemma datetime_decode_lt bs : pre_lt bs (datetime_decode bs).
 Proof.
   unfold datetime_decode. rewrite named_UDINT_decode, named_UINT_decode. apply pre_lt_wrap.
-  apply dbind_pre_lt; [apply shape_lt_pre, int_decode_lt|]. intros t r1 _.
-  apply dbind_pre_le; [apply pre_lt_le, shape_lt_pre, int_decode_lt|]. intros d r2 _. cbn. lia.
+  apply dbind_pre_lt; [apply int_decode_lt; lia|]. intros t r1 _.
+  apply dbind_pre_le; [apply int_decode_le|]. intros d r2 _. cbn. lia.
 Qed.
 
-Lemma nbytes_decode_lt n bs : shape_lt bs (nbytes_decode n bs).
-Proof. unfold nbytes_decode. apply pre_lt_wrap, stream_read_pre_lt. intros d r _ _. cbn. lia. Qed.
+Lemma nbytes_decode_le n bs : pre_le bs (nbytes_decode n bs).
+Proof. unfold nbytes_decode. apply pre_le_wrap, stream_read_pre_le. intros d r _. cbn. lia. Qed.
+Lemma nbytes_decode_lt n bs : n <> 0 -> pre_lt bs (nbytes_decode n bs).
+Proof. intros Hn. unfold nbytes_decode. apply pre_lt_wrap, stream_read_pre_lt; [exact Hn|]. intros d r _. cbn. lia. Qed.
 
-Lemma bits_decode_lt w bs : shape_lt bs (bits_decode w bs).
+Lemma bits_decode_le w bs : pre_le bs (bits_decode w bs).
+Proof. unfold bits_decode. apply pre_le_wrap. apply dbind_pre_le; [apply int_decode_le|]. intros v r _. cbn. lia. Qed.
+Lemma bits_decode_lt w bs : (0 < w)%nat -> pre_lt bs (bits_decode w bs).
+Proof. intros Hw. unfold bits_decode. apply pre_lt_wrap. apply dbind_pre_lt; [now apply int_decode_lt|]. intros v r _. cbn. lia. Qed.
+
+Lemma fixedstr_decode_le size lsg lw bs : pre_le bs (fixedstr_decode size lsg lw bs).
 Proof.
-  unfold bits_decode. apply pre_lt_wrap. apply dbind_pre_lt; [apply shape_lt_pre, int_decode_lt|].
-  intros v r _. cbn. lia.
+  unfold fixedstr_decode. destruct fss_enc; [|cbn; auto]. apply pre_le_wrap.
+  apply dbind_pre_le; [apply int_decode_le|]. intros n r1 _.
+  apply stream_read_pre_le. intros d r _. apply text_result_pre.
+Qed.
+Lemma fixedstr_decode_lt size lsg lw bs : (0 < lw)%nat \/ (0 < size)%nat -> pre_lt bs (fixedstr_decode size lsg lw bs).
+Proof.
+  intros H. unfold fixedstr_decode. destruct fss_enc; [|cbn; auto]. apply pre_lt_wrap. destruct H as [H|H].
+  - apply dbind_pre_lt; [now apply int_decode_lt|]. intros n r1 _.
+    apply stream_read_pre_le. intros d r _. apply text_result_pre.
+  - apply dbind_pre_le_lt; [apply int_decode_le|]. intros n r1 _.
+    apply stream_read_pre_lt; [lia|]. intros d r _. apply text_result_pre.
 Qed.
 
-Lemma fixedstr_decode_lt size lsg lw bs : shape_lt bs (fixedstr_decode size lsg lw bs).
+Lemma ip_decode_lt bs : pre_lt bs (ip_decode bs).
 Proof.
-  unfold fixedstr_decode. destruct fss_enc; [|cbn; auto]. apply pre_lt_wrap.
-  apply dbind_pre_lt; [apply shape_lt_pre, int_decode_lt|]. intros n r1 _.
-  apply pre_lt_le, stream_read_pre_lt. intros d r _ _. apply text_result_pre.
-Qed.
-
-Lemma ip_decode_lt bs : shape_lt bs (ip_decode bs).
-Proof.
-  unfold ip_decode. apply pre_lt_wrap, stream_read_pre_lt. intros d r _ _.
+  unfold ip_decode. apply pre_lt_wrap, stream_read_pre_lt; [lia|]. intros d r _.
   destruct d as [|a [|b [|c [|d' [|? ?]]]]]; cbn; auto.
 Qed.
 
-Lemma pccc_string_decode_lt bs : shape_lt bs (pccc_string_decode bs).
+Lemma pccc_string_decode_lt bs : pre_lt bs (pccc_string_decode bs).
 Proof.
   unfold pccc_string_decode. destruct pccc_string_enc; [|cbn; auto]. rewrite named_UINT_decode.
-  apply pre_lt_wrap. apply dbind_pre_lt; [apply shape_lt_pre, int_decode_lt|]. intros n r1 _.
+  apply pre_lt_wrap. apply dbind_pre_lt; [apply int_decode_lt; lia|]. intros n r1 _.
   destruct (stream_take 82 r1) as [d r2] eqn:Ht. apply stream_take_len in Ht.
   destruct (slc_swap d); [|cbn; auto].
   eapply pre_le_mono; [apply text_result_pre|lia].
 Qed.
 
-(* PCCC_ASCII reads with a plain stream.read(2): it may succeed without consuming anything *)
-Lemma pccc_ascii_decode_le bs : shape_le bs (pccc_ascii_decode bs).
+Lemma pccc_ascii_decode_lt bs : pre_lt bs (pccc_ascii_decode bs).
 Proof.
-  unfold pccc_ascii_decode. destruct pccc_ascii_enc; [|cbn; auto]. apply pre_le_wrap.
-  destruct (stream_take 2 bs) as [d r] eqn:Ht. apply stream_take_len in Ht.
-  destruct (slc_swap d); [|cbn; auto].
-  eapply pre_le_mono; [apply text_result_pre|lia].
+  unfold pccc_ascii_decode. destruct pccc_ascii_enc; [|cbn; auto]. apply pre_lt_wrap.
+  apply stream_read_pre_lt; [lia|]. intros d r _. destruct (slc_swap d); [|cbn; auto]. apply text_result_pre.
 Qed.
 
 (* the string classes STRINGI names (any other class: the model's marker error) *)
 Lemma named_decode_pre n bs : pre_le bs (named_decode n bs).
 Proof.
   unfold named_decode.
-  destruct (ty_of_name n) as [[]|]; cbn; auto;
-    apply shape_le_pre, shape_lt_le; first [apply str_decode_lt | apply stringn_decode_lt].
+  destruct (ty_of_name n) as [[]|]; cbn; auto; first [apply str_decode_le | apply pre_lt_le, stringn_decode_lt].
 Qed.
 
 (* ------------------------------------------------------------------ inversion of dwrap / dbind *)
@@ -224,10 +190,21 @@ Proof.
   intros Hr Hf. destruct r as [v r1| | |]; cbn in *; auto.
   specialize (Hf v r1 eq_refl). destruct (f v r1); cbn in *; auto; lia.
 Qed.
-Lemma pre_le_rest bs r : pre_le bs r -> dres_rest_le bs r.
-Proof. destruct r; cbn; auto. Qed.
 Lemma dres_rest_le_mono bs bs' r : dres_rest_le bs r -> (length bs <= length bs')%nat -> dres_rest_le bs' r.
 Proof. destruct r; cbn; auto; lia. Qed.
+
+(* the tail of Array.decode keeps the rest *)
+Lemma array_flatten_ok_inv b vs r v x : array_flatten b vs r = DOk v x -> x = r.
+Proof.
+  unfold array_flatten. destruct b; [|intros H; now injection H].
+  destruct vs; try discriminate. destruct (chain_vals l); try discriminate. intros H. now injection H.
+Qed.
+Lemma array_flatten_not_empty b vs r x : array_flatten b vs r <> DEmpty x.
+Proof. unfold array_flatten. destruct b; [|discriminate]. destruct vs; try discriminate. destruct (chain_vals l); discriminate. Qed.
+Lemma array_flatten_not_fuel b vs r : array_flatten b vs r <> DOutOfFuel.
+Proof. unfold array_flatten. destruct b; [|discriminate]. destruct vs; try discriminate. destruct (chain_vals l); discriminate. Qed.
+Lemma array_flatten_rest_le b vs r : dres_rest_le r (array_flatten b vs r).
+Proof. unfold array_flatten. destruct b; [|cbn; lia]. destruct vs; cbn; auto. destruct (chain_vals l); cbn; auto. Qed.
 
 (* ------------------------------------------------------------------ T1: library results only *)
 (* every public decode is wrapped: a foreign exception never escapes *)
@@ -254,6 +231,7 @@ Lemma decode_all_rest_le dec fuel : RestLe dec -> RestLe (decode_all dec fuel).
 Proof.
   intros Hd. induction fuel as [|f IH]; intros bs; cbn [decode_all]; [exact I|].
   pose proof (Hd bs) as H. destruct (dec bs) as [v r1|e|r|]; cbn in *; auto.
+  destruct (length r1 =? length bs)%nat; [cbn; lia|].
   eapply dres_rest_le_mono with (bs := r1); [|exact H].
   apply dbind_rest_le; [apply IH|]. intros vs r2 _. destruct vs; cbn; auto.
 Qed.
@@ -275,47 +253,55 @@ Proof.
     destruct (zlookup stringi_string_types code) as [tn|]; [|exact I].
     rewrite named_UINT_decode.
     eapply pre_le_mono with (bs := r2); [|cbn [length] in *; lia].
-    apply dbind_pre_le; [apply pre_lt_le, shape_lt_pre, int_decode_lt|]. intros chs r3 _.
+    apply dbind_pre_le; [apply int_decode_le|]. intros chs r3 _.
     apply dbind_pre_le; [apply named_decode_pre|]. intros s r4 _. apply IH.
   - exact I.
   - cbn [pre_le]. lia.
 Qed.
 
-Lemma stringi_decode_lt bs : shape_lt bs (stringi_decode bs).
+Lemma stringi_decode_lt bs : pre_lt bs (stringi_decode bs).
 Proof.
   unfold stringi_decode. rewrite named_USINT_decode. apply pre_lt_wrap.
-  apply dbind_pre_lt; [apply shape_lt_pre, int_decode_lt|]. intros c r1 _. apply stringi_items_pre.
+  apply dbind_pre_lt; [apply int_decode_lt; lia|]. intros c r1 _. apply stringi_items_pre.
 Qed.
 
 Lemma structtag_rest_le ds bits priv size : RestLe (structtag_decode ds bits priv size).
 Proof.
   intros bs. unfold structtag_decode. apply dwrap_rest_le.
   assert (Hs : (length (skipn size bs) <= length bs)%nat) by (rewrite skipn_length; lia).
-  destruct (stag_decode_members ds (length (firstn size bs)) [] (firstn size bs)) as [v x|e|x|]; cbn; auto.
+  destruct (negb _ && _); [exact I|].
+  destruct (stag_decode_members ds [] (firstn size bs)) as [v x|e|x|]; cbn; auto.
   destruct v; cbn; auto. destruct (stag_decode_bits bits (firstn size bs) d); cbn; auto.
+Qed.
+
+Lemma array_prefix_rest_le b declen dec : RestLe declen -> RestLe dec -> RestLe (array_decode_prefix b declen dec).
+Proof.
+  intros Hl Hd bs. unfold array_decode_prefix. apply dwrap_rest_le. apply dbind_rest_le; [apply Hl|].
+  intros n r1 _. destruct (match n with VInt z => Some z | VBool b0 => Some (if b0 then 1 else 0) | _ => None end) as [z|]; [|exact I].
+  pose proof (decode_n_rest_le dec (Z.to_nat (Z.min z count_limit)) Hd r1) as H.
+  destruct (decode_n dec _ r1) as [vs r2|e|x|]; cbn in H |- *; auto.
+  destruct (count_limit <? z); [exact I|]. eapply dres_rest_le_mono; [apply array_flatten_rest_le|exact H].
 Qed.
 
 Theorem decode_rest_le : forall t fuel, RestLe (decode_fuel fuel t).
 Proof.
   induction t using ty_ind_nested; intros fuel bs; cbn [decode_fuel].
-  - apply shape_le_rest, shape_lt_le, bool_decode_lt.
-  - apply shape_le_rest, shape_lt_le, int_decode_lt.
-  - apply shape_le_rest, shape_lt_le, real_decode_lt.
-  - apply shape_le_rest, shape_lt_le, datetime_decode_lt.
-  - apply shape_le_rest, shape_lt_le, str_decode_lt.
-  - apply shape_le_rest, shape_lt_le, stringn_decode_lt.
-  - apply shape_le_rest, shape_lt_le, stringi_decode_lt.
-  - apply shape_le_rest, shape_lt_le, nbytes_decode_lt.
-  - apply shape_le_rest, shape_lt_le, bits_decode_lt.
+  - apply pre_le_rest, pre_lt_le, bool_decode_lt.
+  - apply pre_le_rest, int_decode_le.
+  - apply pre_le_rest, pre_lt_le, real_decode_lt.
+  - apply pre_le_rest, pre_lt_le, datetime_decode_lt.
+  - apply pre_le_rest, str_decode_le.
+  - apply pre_le_rest, pre_lt_le, stringn_decode_lt.
+  - apply pre_le_rest, pre_lt_le, stringi_decode_lt.
+  - apply pre_le_rest, nbytes_decode_le.
+  - apply pre_le_rest, bits_decode_le.
   - (* TArrFixed *)
     unfold array_decode_fixed. apply dwrap_rest_le. apply dbind_rest_le; [apply decode_n_rest_le, IHt|].
-    intros vs rest _. destruct (is_instance t); [exact I|]. destruct (is_bits t); [|cbn; lia].
-    destruct vs; cbn; auto. destruct (chain_vals l); cbn; auto.
-  - (* TArrPrefix *)
-    unfold array_decode_prefix. apply dwrap_rest_le. destruct inst; [|exact I].
-    apply dbind_rest_le; [apply IHt1|]. intros; exact I.
+    intros vs rest _. apply array_flatten_rest_le.
+  - (* TArrPrefix *) apply array_prefix_rest_le; [apply IHt1|apply IHt2].
   - (* TArrAll *)
-    unfold array_decode_all. apply dwrap_rest_le. apply decode_all_rest_le, IHt.
+    unfold array_decode_all. apply dwrap_rest_le. apply dbind_rest_le; [apply decode_all_rest_le, IHt|].
+    intros vs rest _. apply array_flatten_rest_le.
   - (* TStruct *)
     unfold struct_decode, struct_decode_inner. apply dwrap_rest_le.
     apply dbind_rest_le.
@@ -324,17 +310,17 @@ Proof.
         apply (Forall_map_snd (fun t => forall fuel, RestLe (decode_fuel fuel t)) RestLe (decode_fuel fuel)); auto.
       * intros v r _. destruct v; cbn; auto.
     + intros v r _. destruct k; [cbn; lia| |]; destruct v; cbn; auto; destruct (identity_post d); cbn; auto.
-  - apply shape_le_rest, shape_lt_le, fixedstr_decode_lt.
+  - apply pre_le_rest, fixedstr_decode_le.
   - apply structtag_rest_le.
-  - apply shape_le_rest, shape_lt_le, ip_decode_lt.
-  - apply shape_le_rest, pccc_ascii_decode_le.
-  - apply shape_le_rest, shape_lt_le, pccc_string_decode_lt.
+  - apply pre_le_rest, pre_lt_le, ip_decode_lt.
+  - apply pre_le_rest, pre_lt_le, pccc_ascii_decode_lt.
+  - apply pre_le_rest, pre_lt_le, pccc_string_decode_lt.
 Qed.
 
 (* ------------------------------------------------------------------ T3: types that make progress *)
 Definition Lt (dec : bytes -> dres) : Prop := forall bs v r, dec bs = DOk v r -> (length r < length bs)%nat.
 
-Lemma shape_lt_Lt dec : (forall bs, shape_lt bs (dec bs)) -> Lt dec.
+Lemma pre_lt_Lt dec : (forall bs, pre_lt bs (dec bs)) -> Lt dec.
 Proof. intros H bs v r E. specialize (H bs). now rewrite E in H. Qed.
 
 Lemma rest_le_ok dec bs v r : RestLe dec -> dec bs = DOk v r -> (length r <= length bs)%nat.
@@ -349,6 +335,15 @@ Proof.
   apply dbind_ok_inv in H as (v1 & r1 & E1 & H). apply dbind_ok_inv in H as (vs & r2 & E2 & H).
   apply Hlt in E1. apply decode_n_ok_le in E2; [|assumption].
   destruct vs; try discriminate. injection H as _ <-. lia.
+Qed.
+
+(* n successful decodes of an element that makes progress consume at least n bytes *)
+Lemma decode_n_count dec n : Lt dec -> forall bs v r, decode_n dec n bs = DOk v r -> (n + length r <= length bs)%nat.
+Proof.
+  intros Hlt. induction n as [|n IH]; intros bs v r; cbn [decode_n].
+  - intros H. injection H as _ <-. lia.
+  - intros H. apply dbind_ok_inv in H as (v1 & r1 & E1 & H). apply dbind_ok_inv in H as (vs & r2 & E2 & H).
+    apply Hlt in E1. apply IH in E2. destruct vs; try discriminate. injection H as _ <-. lia.
 Qed.
 
 Lemma struct_members_Lt (ds : list (key * (bytes -> dres))) :
@@ -373,17 +368,13 @@ Proof.
   intros E. apply orb_prop in E as [E|E]; [left; cbn [snd]; auto|right; auto].
 Qed.
 
-(* StructTag members decode from the private sub-stream: on an empty one a member that makes
-   progress cannot succeed *)
-Lemma stag_members_nil (ds : list ((key * nat) * (bytes -> dres))) total :
-  Forall (fun d => RestLe (snd d)) ds -> Exists (fun d => Lt (snd d)) ds ->
-  forall acc v r, stag_decode_members ds total acc [] <> DOk v r.
+(* StructTag members decode from the private sub-stream after a seek: on an empty one a member
+   that makes progress cannot succeed *)
+Lemma stag_members_nil (ds : list ((key * nat) * (bytes -> dres))) :
+  Exists (fun d => Lt (snd d)) ds -> forall acc v r, stag_decode_members ds acc [] <> DOk v r.
 Proof.
-  intros H. induction H as [|[[k off] dec] ds Hd _ IH]; intros Hx acc v r; [inversion Hx|].
-  cbn [stag_decode_members]. intros E. apply dbind_ok_inv in E as (v1 & r1 & E1 & E).
-  assert (Hs : (if (total - length (@nil Z) <? off)%nat then skipn (off - (total - length (@nil Z))) (@nil Z) else @nil Z) = @nil Z)
-    by (destruct (_ <? _)%nat; [apply skipn_nil|reflexivity]).
-  rewrite Hs in E1. pose proof (rest_le_ok _ _ _ _ Hd E1) as Hl. destruct r1; [|cbn in Hl; lia].
+  induction ds as [|[[k off] dec] ds IH]; intros Hx acc v r; [inversion Hx|].
+  cbn [stag_decode_members]. rewrite skipn_nil. intros E. apply dbind_ok_inv in E as (v1 & r1 & E1 & E).
   inversion Hx as [? ? Hh|? ? Ht]; subst.
   - apply Hh in E1. cbn in E1. lia.
   - exact (IH Ht _ _ _ E).
@@ -393,17 +384,17 @@ Lemma stag_bits_nil bits acc : bits <> [] -> exists e, stag_decode_bits bits [] 
 Proof. destruct bits as [|[name [off bit]] r]; [contradiction|]. intros _. cbn [stag_decode_bits]. destruct off; cbn [nth_error]; eauto. Qed.
 
 Lemma structtag_Lt ds bits priv size :
-  Forall (fun d => RestLe (snd d)) ds ->
   (0 < size)%nat -> (Exists (fun d => Lt (snd d)) ds \/ bits <> []) ->
   Lt (structtag_decode ds bits priv size).
 Proof.
-  intros Hle Hs Hp bs v r. unfold structtag_decode. intros E. apply dwrap_ok_inv in E.
-  destruct (stag_decode_members ds (length (firstn size bs)) [] (firstn size bs)) as [v0 x|e|x|] eqn:Em; try discriminate.
+  intros Hs Hp bs v r. unfold structtag_decode. intros E. apply dwrap_ok_inv in E.
+  destruct (negb _ && _); [discriminate|].
+  destruct (stag_decode_members ds [] (firstn size bs)) as [v0 x|e|x|] eqn:Em; try discriminate.
   destruct v0; try discriminate.
   destruct (stag_decode_bits bits (firstn size bs) d) eqn:Eb; try discriminate. injection E as _ <-.
   destruct bs as [|b bs'].
   - exfalso. rewrite firstn_nil in *. destruct Hp as [Hp|Hp].
-    + exact (stag_members_nil ds _ Hle Hp _ _ _ Em).
+    + exact (stag_members_nil ds Hp _ _ _ Em).
     + destruct (stag_bits_nil bits d Hp) as [e He]. congruence.
   - rewrite skipn_length. cbn [length]. lia.
 Qed.
@@ -411,26 +402,28 @@ Qed.
 Theorem progress_lt : forall t, progress t = true -> forall fuel, Lt (decode_fuel fuel t).
 Proof.
   induction t using ty_ind_nested; intros Hp fuel; cbn [progress] in Hp; try discriminate; cbn [decode_fuel].
-  - apply shape_lt_Lt, bool_decode_lt.
-  - apply shape_lt_Lt. intros bs. apply int_decode_lt.
-  - apply shape_lt_Lt. intros bs. apply real_decode_lt.
-  - apply shape_lt_Lt, datetime_decode_lt.
-  - apply shape_lt_Lt. intros bs. apply str_decode_lt.
-  - apply shape_lt_Lt, stringn_decode_lt.
-  - apply shape_lt_Lt, stringi_decode_lt.
-  - apply shape_lt_Lt. intros bs. apply nbytes_decode_lt.
-  - apply shape_lt_Lt. intros bs. apply bits_decode_lt.
+  - apply pre_lt_Lt, bool_decode_lt.
+  - apply pre_lt_Lt. intros bs. apply int_decode_lt. now apply Nat.ltb_lt.
+  - apply pre_lt_Lt. intros bs. apply real_decode_lt.
+  - apply pre_lt_Lt, datetime_decode_lt.
+  - apply pre_lt_Lt. intros bs. apply str_decode_lt. now apply Nat.ltb_lt.
+  - apply pre_lt_Lt, stringn_decode_lt.
+  - apply pre_lt_Lt, stringi_decode_lt.
+  - apply pre_lt_Lt. intros bs. apply nbytes_decode_lt. apply negb_true_iff in Hp. lia.
+  - apply pre_lt_Lt. intros bs. apply bits_decode_lt. now apply Nat.ltb_lt.
   - (* TArrFixed *)
     apply andb_prop in Hp as [Hn Hp]. destruct n as [|n]; [discriminate|].
     intros bs v r. unfold array_decode_fixed. intros E. apply dwrap_ok_inv in E.
     apply dbind_ok_inv in E as (vs & r1 & E1 & E).
     apply (decode_n_Lt _ n (decode_rest_le t fuel) (IHt Hp fuel)) in E1.
-    destruct (is_instance t); [discriminate|]. destruct (is_bits t).
-    + destruct vs; try discriminate. destruct (chain_vals l); try discriminate. injection E as _ <-. exact E1.
-    + injection E as _ <-. exact E1.
-  - (* TArrPrefix: never succeeds *)
-    intros bs v r. unfold array_decode_prefix. intros E. apply dwrap_ok_inv in E. destruct inst; [|discriminate].
-    apply dbind_ok_inv in E as (? & ? & _ & E). discriminate.
+    apply array_flatten_ok_inv in E. now subst.
+  - (* TArrPrefix: the length decoder makes progress *)
+    intros bs v r. unfold array_decode_prefix. intros E. apply dwrap_ok_inv in E.
+    apply dbind_ok_inv in E as (n & r1 & E1 & E). apply (IHt1 Hp fuel) in E1.
+    destruct (match n with VInt z => Some z | VBool b0 => Some (if b0 then 1 else 0) | _ => None end) as [z|]; [|discriminate].
+    destruct (decode_n (decode_fuel fuel t2) _ r1) as [vs r2|e|x|] eqn:E2; try discriminate.
+    apply (decode_n_ok_le _ _ (decode_rest_le t2 fuel)) in E2.
+    destruct (count_limit <? z); [discriminate|]. apply array_flatten_ok_inv in E. subst. lia.
   - (* TStruct *)
     intros bs v r. unfold struct_decode, struct_decode_inner. intros E. apply dwrap_ok_inv in E.
     apply dbind_ok_inv in E as (v1 & r1 & E1 & E). apply dbind_ok_inv in E1 as (v2 & r2 & E2 & E1).
@@ -443,27 +436,27 @@ Proof.
       eapply Forall_impl; [|exact H]. intros m Hm Hpm. now apply Hm.
     + apply (Forall_map_snd (fun t => forall fuel, RestLe (decode_fuel fuel t)) RestLe (decode_fuel fuel)); auto.
       rewrite Forall_forall. intros m _ f. apply decode_rest_le.
-  - apply shape_lt_Lt. intros bs. apply fixedstr_decode_lt.
+  - apply pre_lt_Lt. intros bs. apply fixedstr_decode_lt.
+    apply orb_prop in Hp as [Hp|Hp]; [left|right]; now apply Nat.ltb_lt.
   - (* TStructTag *)
     apply andb_prop in Hp as [Hs Hp]. apply structtag_Lt.
-    + apply (Forall_map_snd (fun t => forall fuel, RestLe (decode_fuel fuel t)) RestLe (decode_fuel fuel)); auto.
-      rewrite Forall_forall. intros m _ f. apply decode_rest_le.
     + apply Nat.ltb_lt in Hs. exact Hs.
     + apply orb_prop in Hp as [Hp|Hp].
       * left. apply (Exists_map_snd progress Lt (decode_fuel fuel)); [|exact Hp].
         eapply Forall_impl; [|exact H]. intros m Hm Hpm. now apply Hm.
       * right. destruct bits; [discriminate|discriminate].
-  - apply shape_lt_Lt, ip_decode_lt.
-  - apply shape_lt_Lt, pccc_string_decode_lt.
+  - apply pre_lt_Lt, ip_decode_lt.
+  - apply pre_lt_Lt, pccc_ascii_decode_lt.
+  - apply pre_lt_Lt, pccc_string_decode_lt.
 Qed.
 
-(* ------------------------------------------------------------------ T4: termination of Array._decode_all *)
+(* ------------------------------------------------------------------ T4: termination *)
 (* the decoder does not run out of fuel on buffers of at most L bytes *)
 Definition NoFuel (L : nat) (dec : bytes -> dres) : Prop := forall bs, (length bs <= L)%nat -> dec bs <> DOutOfFuel.
 
-Lemma shape_lt_NoFuel L dec : (forall bs, shape_lt bs (dec bs)) -> NoFuel L dec.
+Lemma pre_lt_NoFuel L dec : (forall bs, pre_lt bs (dec bs)) -> NoFuel L dec.
 Proof. intros H bs _ E. specialize (H bs). now rewrite E in H. Qed.
-Lemma shape_le_NoFuel L dec : (forall bs, shape_le bs (dec bs)) -> NoFuel L dec.
+Lemma pre_le_NoFuel L dec : (forall bs, pre_le bs (dec bs)) -> NoFuel L dec.
 Proof. intros H bs _ E. specialize (H bs). now rewrite E in H. Qed.
 
 Lemma decode_n_NoFuel L dec n : RestLe dec -> NoFuel L dec -> NoFuel L (decode_n dec n).
@@ -485,24 +478,24 @@ Proof.
   apply (rest_le_ok _ _ _ _ Hd) in E1. eapply (IH Hnf'); [|exact E]. lia.
 Qed.
 
-Lemma stag_members_NoFuel L (ds : list ((key * nat) * (bytes -> dres))) total :
-  Forall (fun d => RestLe (snd d)) ds -> Forall (fun d => NoFuel L (snd d)) ds ->
-  forall acc, NoFuel L (stag_decode_members ds total acc).
+Lemma stag_members_NoFuel L (ds : list ((key * nat) * (bytes -> dres))) :
+  Forall (fun d => NoFuel L (snd d)) ds ->
+  forall acc, NoFuel L (stag_decode_members ds acc).
 Proof.
-  intros Hle Hnf. induction Hle as [|[[k off] dec] ds Hd _ IH]; intros acc sub Hl; cbn [stag_decode_members]; [discriminate|].
-  inversion Hnf as [|? ? Hn Hnf']; subst. intros E.
-  set (sub1 := if (total - length sub <? off)%nat then skipn (off - (total - length sub)) sub else sub) in E.
-  assert (H1 : (length sub1 <= length sub)%nat) by (unfold sub1; destruct (_ <? _)%nat; [rewrite skipn_length|]; lia).
-  apply dbind_fuel_inv in E as [E|(v1 & r1 & E1 & E)]; [apply (Hn sub1); [lia|exact E]|].
-  apply (rest_le_ok _ _ _ _ Hd) in E1. eapply (IH Hnf'); [|exact E]. lia.
+  intros Hnf. induction Hnf as [|[[k off] dec] ds Hn _ IH]; intros acc raw Hl; cbn [stag_decode_members]; [discriminate|].
+  intros E. apply dbind_fuel_inv in E as [E|(v1 & r1 & E1 & E)].
+  - apply (Hn (skipn off raw)); [rewrite skipn_length; lia|exact E].
+  - exact (IH _ raw Hl E).
 Qed.
 
-(* the loop: each successful element shortens the buffer, so [length bs + 1] rounds are enough *)
-Lemma decode_all_NoFuel dec : Lt dec -> forall f bs, (length bs < f)%nat -> NoFuel (length bs) dec -> decode_all dec f bs <> DOutOfFuel.
+(* the loop: each round either shortens the buffer or ends, so [length bs + 1] rounds are enough —
+   whatever the element type *)
+Lemma decode_all_NoFuel dec : RestLe dec -> forall f bs, (length bs < f)%nat -> NoFuel (length bs) dec -> decode_all dec f bs <> DOutOfFuel.
 Proof.
-  intros Hlt. induction f as [|f IH]; intros bs Hl Hnf; [lia|]. cbn [decode_all].
+  intros Hle. induction f as [|f IH]; intros bs Hl Hnf; [lia|]. cbn [decode_all].
   destruct (dec bs) as [v r1|e|r|] eqn:E1; try discriminate.
-  - apply Hlt in E1. intros E. apply dbind_fuel_inv in E as [E|(vs & r2 & _ & E)].
+  - destruct (length r1 =? length bs)%nat eqn:En; [discriminate|]. apply Nat.eqb_neq in En.
+    apply (rest_le_ok _ _ _ _ Hle) in E1. intros E. apply dbind_fuel_inv in E as [E|(vs & r2 & _ & E)].
     + apply (IH r1); [lia| |exact E]. intros bs' Hl'. apply Hnf. lia.
     + destruct vs; discriminate.
   - exfalso. exact (Hnf bs (le_n _) E1).
@@ -511,72 +504,84 @@ Qed.
 Lemma stringi_items_NoFuel count bs ss ls cs : stringi_decode_items count bs ss ls cs <> DOutOfFuel.
 Proof. intros E. pose proof (stringi_items_pre count bs ss ls cs) as H. now rewrite E in H. Qed.
 
+(* [L]: the buffers considered; a length-prefixed array inside the type needs L below the model's
+   [count_limit] (the bound of the loop the model runs for one `range(count)`) *)
 Theorem decode_terminates : forall t, hprogress t = true ->
-  forall fuel bs, (length bs < fuel)%nat -> decode_fuel fuel t bs <> DOutOfFuel.
+  forall fuel bs, (length bs < fuel)%nat -> (has_prefix t = true -> Z.of_nat (length bs) < count_limit) ->
+  decode_fuel fuel t bs <> DOutOfFuel.
 Proof.
-  intros t Hh fuel. cut ((0 < fuel)%nat -> NoFuel (fuel - 1) (decode_fuel fuel t)).
-  { intros H bs Hl. apply H; lia. }
-  intros Hf. revert Hh. induction t using ty_ind_nested; intros Hh; cbn [hprogress] in Hh; cbn [decode_fuel].
-  - apply shape_lt_NoFuel, bool_decode_lt.
-  - apply shape_lt_NoFuel. intros bs. apply int_decode_lt.
-  - apply shape_lt_NoFuel. intros bs. apply real_decode_lt.
-  - apply shape_lt_NoFuel, datetime_decode_lt.
-  - apply shape_lt_NoFuel. intros bs. apply str_decode_lt.
-  - apply shape_lt_NoFuel, stringn_decode_lt.
-  - apply shape_lt_NoFuel, stringi_decode_lt.
-  - apply shape_lt_NoFuel. intros bs. apply nbytes_decode_lt.
-  - apply shape_lt_NoFuel. intros bs. apply bits_decode_lt.
+  intros t Hh fuel bs0 Hl0 Hc0.
+  set (L := length bs0).
+  cut (NoFuel L (decode_fuel fuel t)); [intros H; apply H; unfold L; lia|].
+  assert (Hf : (L < fuel)%nat) by (unfold L; lia).
+  assert (Hc : has_prefix t = true -> Z.of_nat L < count_limit) by exact Hc0.
+  clearbody L. clear Hl0 Hc0 bs0. revert Hh Hc.
+  induction t using ty_ind_nested; intros Hh Hc; cbn [hprogress] in Hh; cbn [has_prefix] in Hc; cbn [decode_fuel].
+  - apply pre_lt_NoFuel, bool_decode_lt.
+  - apply pre_le_NoFuel. intros bs. apply int_decode_le.
+  - apply pre_lt_NoFuel. intros bs. apply real_decode_lt.
+  - apply pre_lt_NoFuel, datetime_decode_lt.
+  - apply pre_le_NoFuel. intros bs. apply str_decode_le.
+  - apply pre_lt_NoFuel, stringn_decode_lt.
+  - apply pre_lt_NoFuel, stringi_decode_lt.
+  - apply pre_le_NoFuel. intros bs. apply nbytes_decode_le.
+  - apply pre_le_NoFuel. intros bs. apply bits_decode_le.
   - (* TArrFixed *)
     intros bs Hl. unfold array_decode_fixed. intros E. apply dwrap_fuel_inv in E.
     apply dbind_fuel_inv in E as [E|(vs & r1 & _ & E)].
-    + exact (decode_n_NoFuel _ _ n (decode_rest_le t fuel) (IHt Hh) bs Hl E).
-    + destruct (is_instance t); [discriminate|]. destruct (is_bits t); [|discriminate].
-      destruct vs; try discriminate. destruct (chain_vals l); discriminate.
+    + exact (decode_n_NoFuel _ _ n (decode_rest_le t fuel) (IHt Hh Hc) bs Hl E).
+    + exact (array_flatten_not_fuel _ _ _ E).
   - (* TArrPrefix *)
-    intros bs Hl. unfold array_decode_prefix. intros E. apply dwrap_fuel_inv in E. destruct inst; [|discriminate].
-    apply dbind_fuel_inv in E as [E|(? & ? & _ & E)]; [|discriminate]. cbn in Hh. exact (IHt1 Hh bs Hl E).
+    apply andb_prop in Hh as [Hh Hh2]. apply andb_prop in Hh as [Hp Hh1].
+    intros bs Hl. unfold array_decode_prefix. intros E. apply dwrap_fuel_inv in E.
+    apply dbind_fuel_inv in E as [E|(n & r1 & E1 & E)].
+    + refine (IHt1 Hh1 _ bs Hl E). intros _. now apply Hc.
+    + apply (rest_le_ok _ _ _ _ (decode_rest_le t1 fuel)) in E1.
+      destruct (match n with VInt z => Some z | VBool b0 => Some (if b0 then 1 else 0) | _ => None end) as [z|]; [|discriminate].
+      destruct (decode_n (decode_fuel fuel t2) (Z.to_nat (Z.min z count_limit)) r1) as [vs r2|e|x|] eqn:E2; try discriminate.
+      * destruct (count_limit <? z) eqn:Ez; [|exact (array_flatten_not_fuel _ _ _ E)].
+        (* more than count_limit elements that make progress cannot all decode from a shorter buffer *)
+        apply (decode_n_count _ _ (progress_lt t2 Hp fuel)) in E2. specialize (Hc eq_refl). unfold count_limit in *. lia.
+      * refine (decode_n_NoFuel L _ _ (decode_rest_le t2 fuel) (IHt2 Hh2 _) r1 _ E2); [intros _; now apply Hc|lia].
   - (* TArrAll *)
-    apply andb_prop in Hh as [Hp Hh]. intros bs Hl. unfold array_decode_all. intros E. apply dwrap_fuel_inv in E.
+    intros bs Hl. unfold array_decode_all. intros E. apply dwrap_fuel_inv in E.
+    apply dbind_fuel_inv in E as [E|(vs & r1 & _ & E)]; [|exact (array_flatten_not_fuel _ _ _ E)].
     revert E. apply decode_all_NoFuel.
-    + apply progress_lt, Hp.
+    + apply decode_rest_le.
     + lia.
-    + intros bs' Hl'. apply (IHt Hh). lia.
+    + intros bs' Hl'. apply (IHt Hh Hc). lia.
   - (* TStruct *)
     intros bs Hl. unfold struct_decode, struct_decode_inner. intros E. apply dwrap_fuel_inv in E.
     apply dbind_fuel_inv in E as [E|(v1 & r1 & _ & E)].
     + apply dbind_fuel_inv in E as [E|(v2 & r2 & _ & E)]; [|destruct v2; discriminate].
-      revert E. apply (struct_members_NoFuel (fuel - 1)); [| |exact Hl].
+      revert E. apply (struct_members_NoFuel L); [| |exact Hl].
       * apply (Forall_map_snd (fun t => forall fuel, RestLe (decode_fuel fuel t)) RestLe (decode_fuel fuel)); auto.
         rewrite Forall_forall. intros m _ f. apply decode_rest_le.
       * rewrite forallb_forall in Hh. rewrite Forall_forall in H. rewrite Forall_forall. intros d Hd.
-        apply in_map_iff in Hd as (m & <- & Hm). cbn [snd]. apply (H m Hm), Hh, Hm.
+        apply in_map_iff in Hd as (m & <- & Hm). cbn [snd]. apply (H m Hm); [apply Hh, Hm|].
+        intros Hpm. apply Hc. apply existsb_exists. eauto.
     + destruct k; [discriminate| |]; destruct v1; try discriminate; destruct (identity_post d); discriminate.
-  - apply shape_lt_NoFuel. intros bs. apply fixedstr_decode_lt.
+  - apply pre_le_NoFuel. intros bs. apply fixedstr_decode_le.
   - (* TStructTag *)
     intros bs Hl. unfold structtag_decode. intros E. apply dwrap_fuel_inv in E.
-    destruct (stag_decode_members _ _ _ _) as [v0 x|e|x|] eqn:Em; try discriminate.
+    destruct (negb _ && _); [discriminate|].
+    destruct (stag_decode_members _ _ _) as [v0 x|e|x|] eqn:Em; try discriminate.
     + destruct v0; try discriminate. destruct (stag_decode_bits bits (firstn size bs) d); discriminate.
-    + revert Em. apply (stag_members_NoFuel (fuel - 1)).
-      * apply (Forall_map_snd (fun t => forall fuel, RestLe (decode_fuel fuel t)) RestLe (decode_fuel fuel)); auto.
-        rewrite Forall_forall. intros m _ f. apply decode_rest_le.
+    + revert Em. apply (stag_members_NoFuel L).
       * rewrite forallb_forall in Hh. rewrite Forall_forall in H. rewrite Forall_forall. intros d Hd.
-        apply in_map_iff in Hd as (m & <- & Hm). cbn [snd]. apply (H m Hm), Hh, Hm.
+        apply in_map_iff in Hd as (m & <- & Hm). cbn [snd]. apply (H m Hm); [apply Hh, Hm|].
+        intros Hpm. apply Hc. apply existsb_exists. eauto.
       * rewrite firstn_length. lia.
-  - apply shape_lt_NoFuel, ip_decode_lt.
-  - apply shape_le_NoFuel, pccc_ascii_decode_le.
-  - apply shape_lt_NoFuel, pccc_string_decode_lt.
+  - apply pre_lt_NoFuel, ip_decode_lt.
+  - apply pre_lt_NoFuel, pccc_ascii_decode_lt.
+  - apply pre_lt_NoFuel, pccc_string_decode_lt.
 Qed.
 
-(* ------------------------------------------------------------------ T5: how a hang is exhibited *)
-(* an element decoder that returns from the empty buffer without raising BufferEmptyError makes
-   Array(None, T) spin: no amount of fuel is enough *)
-Lemma decode_all_hangs dec v : dec [] = DOk v [] -> forall f, decode_all dec f [] = DOutOfFuel.
-Proof. intros E. induction f as [|f IH]; cbn [decode_all]; [reflexivity|]. rewrite E, IH. reflexivity. Qed.
-
-Theorem unbounded_array_hangs e :
-  (forall fuel, exists v, decode_fuel fuel e [] = DOk v []) ->
-  forall fuel, decode_fuel fuel (TArrAll e) [] = DOutOfFuel.
+(* ------------------------------------------------------------------ T5: the loop that remains *)
+(* Array(L, T) with an element type that succeeds without consuming input runs as many rounds as
+   the count says, whatever the buffer holds: in the model, out of fuel beyond [count_limit] *)
+Lemma decode_n_zero_width dec v : (forall bs, dec bs = DOk v bs) -> forall n bs, exists vs, decode_n dec n bs = DOk (VList vs) bs.
 Proof.
-  intros H fuel. cbn [decode_fuel]. unfold array_decode_all. destruct (H fuel) as [v Hv].
-  now rewrite (decode_all_hangs _ v Hv).
+  intros Hd. induction n as [|n IH]; intros bs; cbn [decode_n]; [eexists; reflexivity|].
+  rewrite Hd. cbn [dbind]. destruct (IH bs) as [vs ->]. cbn [dbind]. eexists. reflexivity.
 Qed.
